@@ -57,7 +57,18 @@ func poolKeyDir(verifDir string, bits, idx int) *rsa.PrivateKey {
 	if err != nil {
 		panic(err)
 	}
-	os.WriteFile(p, pem.EncodeToMemory(&pem.Block{Type: "RSA PRIVATE KEY", Bytes: x509.MarshalPKCS1PrivateKey(k)}), 0o600)
+	// several processes (shards, workers) may get here at once: the first link wins and everybody uses the winner
+	tmp := fmt.Sprintf("%s.%d.tmp", p, os.Getpid())
+	os.WriteFile(tmp, pem.EncodeToMemory(&pem.Block{Type: "RSA PRIVATE KEY", Bytes: x509.MarshalPKCS1PrivateKey(k)}), 0o600)
+	os.Link(tmp, p)
+	os.Remove(tmp)
+	if b, err := os.ReadFile(p); err == nil {
+		if blk, _ := pem.Decode(b); blk != nil {
+			if kk, err := x509.ParsePKCS1PrivateKey(blk.Bytes); err == nil {
+				k = kk
+			}
+		}
+	}
 	keyCache[name] = k
 	return k
 }
